@@ -2,30 +2,37 @@ package main
 
 import (
 	"bytes"
+	"encoding/json"
 	"fmt"
 	"reflect"
+	"regexp"
+	"sort"
+	"strconv"
 	"strings"
 
 	kmip "github.com/ovh/kmip-go"
 	"github.com/ovh/kmip-go/ttlv"
 
+	"verifharness/internal/model"
 	"verifharness/internal/report"
-	"verifharness/internal/schema"
 	"verifharness/internal/tree"
 )
 
 // The `gate` engine: impl-side oracle of C05 (version gating), independent of the library's struct
-// annotations: a PINNED table (same content as lean/KmipModel/Pinned/Introduced.lean, DESIGN.md
-// Appendix B) says in which protocol version each version-dependent element appears.
+// annotations: a PINNED table says in which protocol version each version-dependent element appears.
+// SINGLE SOURCE: the table is lean/KmipModel/Pinned/Introduced.lean — the very definition the Lean theorems
+// speak about; the engine asks the compiled model for it (`gate.pinned`), it has no copy of its own.
 
 type gateKey struct {
 	parent int // struct tag, or 1000000 + 2*op + direction for operation payloads
 	child  int
+	occ    int // position: number of earlier FIELDS of the parent with the same tag
 }
 
 type ver struct{ maj, min int }
 
 func (a ver) lt(b ver) bool { return a.maj < b.maj || (a.maj == b.maj && a.min < b.min) }
+func (a ver) String() string { return fmt.Sprintf("%d.%d", a.maj, a.min) }
 
 func payloadKey(op uint32, response bool) int {
 	k := 1000000 + 2*int(op)
@@ -35,41 +42,82 @@ func payloadKey(op uint32, response bool) int {
 	return k
 }
 
-// pinnedIntroduced: (parent, child) -> version introducing the child inside that parent.
-// For Authentication the entry concerns Credential elements AFTER the first one.
-var pinnedIntroduced = map[gateKey]ver{
-	{0x420077, 0x420105}: {1, 4}, {0x420077, 0x420106}: {1, 4}, {0x420077, 0x4200D3}: {1, 2}, {0x420077, 0x4200C7}: {1, 2},
-	{0x42000C, 0x420023}: {1, 2},
-	{0x42007A, 0x4200C8}: {1, 2}, {0x42007A, 0x4200C7}: {1, 2}, {0x42007A, 0x420105}: {1, 4}, {0x42007A, 0x420106}: {1, 4},
-	{payloadKey(8, false), 0x4200D4}: {1, 3}, {payloadKey(8, false), 0x4200AC}: {1, 1}, {payloadKey(8, true), 0x4200D5}: {1, 3},
-	{payloadKey(10, false), 0x4200F8}: {1, 4},
-	{0x420047, 0x4200A3}:              {1, 1}, {0x420046, 0x4200A3}: {1, 1}, {0x420034, 0x420042}: {1, 1},
-	{0x42002B, 0x4200AE}: {1, 2}, {0x42002B, 0x420028}: {1, 2}, {0x42002B, 0x4200C5}: {1, 2}, {0x42002B, 0x4200CD}: {1, 2},
-	{0x42002B, 0x4200CE}: {1, 2}, {0x42002B, 0x4200CF}: {1, 2}, {0x42002B, 0x4200D2}: {1, 2}, {0x42002B, 0x4200D0}: {1, 2},
-	{0x42002B, 0x4200D1}: {1, 2}, {0x42002B, 0x420100}: {1, 4}, {0x42002B, 0x420101}: {1, 4}, {0x42002B, 0x420102}: {1, 4},
-	{0x42002B, 0x420103}: {1, 4}, {0x42002B, 0x420104}: {1, 4},
-	{payloadKey(24, true), 0x4200A4}: {1, 1}, {payloadKey(24, true), 0x4200C7}: {1, 2}, {payloadKey(24, true), 0x4200D9}: {1, 3},
-	{payloadKey(24, true), 0x4200EB}: {1, 3}, {payloadKey(24, true), 0x4200DF}: {1, 3}, {payloadKey(24, true), 0x4200F7}: {1, 3},
-	{payloadKey(24, true), 0x4200F6}: {1, 3},
-	{0x4200F7, 0x4200F9}:             {1, 4}, {0x4200F7, 0x4200FA}: {1, 4},
-	{payloadKey(31, false), 0x4200D6}: {1, 3}, {payloadKey(31, false), 0x4200D7}: {1, 3}, {payloadKey(31, false), 0x4200D8}: {1, 3}, {payloadKey(31, false), 0x4200FE}: {1, 4},
-	{payloadKey(31, true), 0x4200D6}: {1, 3}, {payloadKey(31, true), 0x4200FF}: {1, 4},
-	{payloadKey(32, false), 0x4200D6}: {1, 3}, {payloadKey(32, false), 0x4200D7}: {1, 3}, {payloadKey(32, false), 0x4200D8}: {1, 3},
-	{payloadKey(32, false), 0x4200FE}: {1, 4}, {payloadKey(32, false), 0x4200FF}: {1, 4}, {payloadKey(32, true), 0x4200D6}: {1, 3},
-	{payloadKey(33, false), 0x420107}: {1, 4}, {payloadKey(33, false), 0x4200D6}: {1, 3}, {payloadKey(33, false), 0x4200D7}: {1, 3}, {payloadKey(33, false), 0x4200D8}: {1, 3},
-	{payloadKey(33, true), 0x4200D6}:  {1, 3},
-	{payloadKey(34, false), 0x420107}: {1, 4}, {payloadKey(34, false), 0x4200D6}: {1, 3}, {payloadKey(34, false), 0x4200D7}: {1, 3}, {payloadKey(34, false), 0x4200D8}: {1, 3},
-	{payloadKey(34, true), 0x4200D6}: {1, 3},
+type pinnedTable struct {
+	rows   map[gateKey]ver
+	maxOcc map[[2]int]int // (parent, child) -> highest pinned occurrence
+	keys   []gateKey      // in table order
 }
+
+// loadPinned fetches Pinned.introduced from the model executable.
+func loadPinned() (*pinnedTable, error) {
+	ans, err := model.Run([]string{"gate.pinned"})
+	if err != nil {
+		return nil, err
+	}
+	f := strings.Fields(ans[0])
+	if len(f) < 2 || f[0] != "ok" {
+		return nil, fmt.Errorf("gate.pinned: unexpected answer %q", ans[0])
+	}
+	t := &pinnedTable{rows: map[gateKey]ver{}, maxOcc: map[[2]int]int{}}
+	for _, tok := range f[1:] {
+		p := strings.Split(tok, ":")
+		if len(p) != 5 {
+			return nil, fmt.Errorf("gate.pinned: bad row %q", tok)
+		}
+		var n [5]int
+		for i, s := range p {
+			v, err := strconv.Atoi(s)
+			if err != nil {
+				return nil, fmt.Errorf("gate.pinned: bad row %q", tok)
+			}
+			n[i] = v
+		}
+		k := gateKey{n[0], n[1], n[2]}
+		if _, dup := t.rows[k]; dup {
+			return nil, fmt.Errorf("gate.pinned: duplicate row %q", tok)
+		}
+		t.rows[k] = ver{n[3], n[4]}
+		t.keys = append(t.keys, k)
+		if n[2] > t.maxOcc[[2]int{n[0], n[1]}] {
+			t.maxOcc[[2]int{n[0], n[1]}] = n[2]
+		}
+	}
+	return t, nil
+}
+
+// gateStats: per-row coverage accounting.
+type gateStats struct {
+	removed map[gateKey]int // the row removed an element (version before its introduction)
+	kept    map[gateKey]int // the row's element was present and in range
+}
+
+func (k gateKey) String() string { return fmt.Sprintf("%d.0x%06X.%d", k.parent, k.child, k.occ) }
 
 // filterTree removes from t (an encoding made at a version where everything is in range) every element
 // the pinned table introduces after v. response: direction of the message; op: operation of the
 // enclosing batch item (0 outside).
-func filterTree(t *tree.Item, v ver, response bool, op uint32) *tree.Item {
-	return filterTreeA(t, v, response, op, 0)
+func (pt *pinnedTable) filterTree(t *tree.Item, v ver, response bool, st *gateStats) *tree.Item {
+	return pt.filterTreeA(t, v, response, 0, 0, st)
 }
 
-func filterTreeA(t *tree.Item, v ver, response bool, op uint32, attrParent int) *tree.Item {
+var tagByName map[string]int
+
+func tagNamed(name string) (int, bool) {
+	if tagByName == nil {
+		tagByName = map[string]int{}
+		for tg := 0x420001; tg < 0x420200; tg++ {
+			if n := ttlv.TagString(tg); n != "" && !strings.HasPrefix(n, "0x") {
+				if _, dup := tagByName[n]; !dup {
+					tagByName[n] = tg
+				}
+			}
+		}
+	}
+	t, ok := tagByName[name]
+	return t, ok
+}
+
+func (pt *pinnedTable) filterTreeA(t *tree.Item, v ver, response bool, op uint32, attrParent int, st *gateStats) *tree.Item {
 	if t.Kind != tree.KStruct {
 		return t
 	}
@@ -92,10 +140,8 @@ func filterTreeA(t *tree.Item, v ver, response bool, op uint32, attrParent int) 
 		for _, c := range t.Children {
 			if c.Tag == kmip.TagAttributeName && c.Kind == tree.KText {
 				name := strings.NewReplacer(" ", "", ".", "_", "#", "_").Replace(string(c.Data))
-				for tg := 0x420001; tg < 0x420200; tg++ {
-					if ttlv.TagString(tg) == name {
-						attrValueParent = tg
-					}
+				if tg, ok := tagNamed(name); ok {
+					attrValueParent = tg
 				}
 			}
 		}
@@ -103,16 +149,30 @@ func filterTreeA(t *tree.Item, v ver, response bool, op uint32, attrParent int) 
 	if t.Tag == kmip.TagAttributeValue && attrParent != 0 {
 		parent = attrParent
 	}
-	seenCred := false
+	seen := map[int]int{} // child tag -> number of earlier children with that tag
 	for _, c := range t.Children {
-		if intro, ok := pinnedIntroduced[gateKey{parent, c.Tag}]; ok && v.lt(intro) {
-			if parent == 0x42000C && !seenCred {
-				seenCred = true // the first Credential exists in every version
-			} else {
+		// the field (occurrence) a wire element belongs to: fields before the last one with a given tag hold
+		// one element each, the last one holds all the remaining ones
+		occ := seen[c.Tag]
+		seen[c.Tag]++
+		if m, ok := pt.maxOcc[[2]int{parent, c.Tag}]; ok && occ > m {
+			occ = m
+		} else if !ok {
+			occ = 0
+		}
+		k := gateKey{parent, c.Tag, occ}
+		if intro, ok := pt.rows[k]; ok {
+			if v.lt(intro) {
+				if st != nil {
+					st.removed[k]++
+				}
 				continue
 			}
+			if st != nil {
+				st.kept[k]++
+			}
 		}
-		out.Children = append(out.Children, filterTreeA(c, v, response, curOp, attrValueParent))
+		out.Children = append(out.Children, pt.filterTreeA(c, v, response, curOp, attrValueParent, st))
 	}
 	return out
 }
@@ -127,10 +187,158 @@ func setVersionItems(t *tree.Item, v ver) {
 	}
 }
 
+// ---- element skeletons: which element (tag) sits where, at every depth — what C05 speaks about -------------
+
+func skelTree(it *tree.Item, sb *strings.Builder) {
+	if it.Kind != tree.KStruct {
+		fmt.Fprintf(sb, "%X", it.Tag)
+		return
+	}
+	fmt.Fprintf(sb, "(%X", it.Tag)
+	for _, c := range it.Children {
+		sb.WriteByte(' ')
+		skelTree(c, sb)
+	}
+	sb.WriteByte(')')
+}
+
+func skelOfTree(it *tree.Item) string {
+	var sb strings.Builder
+	skelTree(it, &sb)
+	return sb.String()
+}
+
+func textTag(s string) (int, error) {
+	if strings.HasPrefix(s, "0x") {
+		v, err := strconv.ParseUint(s[2:], 16, 32)
+		return int(v), err
+	}
+	if t, ok := tagNamed(s); ok {
+		return t, nil
+	}
+	return 0, fmt.Errorf("unknown tag name %q", s)
+}
+
+// skelOfXML reads an XML document with encoding/xml (independent of the library's reader).
+func skelOfXML(doc []byte) (string, error) {
+	roots, err := parseXMLNodes(doc)
+	if err != nil {
+		return "", err
+	}
+	if len(roots) != 1 {
+		return "", fmt.Errorf("%d root elements", len(roots))
+	}
+	var sb strings.Builder
+	var walk func(n *xnode) error
+	walk = func(n *xnode) error {
+		name := n.Name
+		if name == "TTLV" {
+			name = n.Attrs["tag"]
+		}
+		tg, err := textTag(name)
+		if err != nil {
+			return err
+		}
+		if ty, has := n.Attrs["type"]; has && ty != "Structure" {
+			fmt.Fprintf(&sb, "%X", tg)
+			return nil
+		}
+		fmt.Fprintf(&sb, "(%X", tg)
+		for _, c := range n.Children {
+			sb.WriteByte(' ')
+			if err := walk(c); err != nil {
+				return err
+			}
+		}
+		sb.WriteByte(')')
+		return nil
+	}
+	if err := walk(roots[0]); err != nil {
+		return "", err
+	}
+	return sb.String(), nil
+}
+
+// skelOfJSON reads a JSON document with encoding/json (independent of the library's reader).
+func skelOfJSON(doc []byte) (string, error) {
+	var root any
+	d := json.NewDecoder(bytes.NewReader(doc))
+	d.UseNumber()
+	if err := d.Decode(&root); err != nil {
+		return "", err
+	}
+	var sb strings.Builder
+	var walk func(v any) error
+	walk = func(v any) error {
+		o, ok := v.(map[string]any)
+		if !ok {
+			return fmt.Errorf("element is not an object")
+		}
+		name, _ := o["tag"].(string)
+		tg, err := textTag(name)
+		if err != nil {
+			return err
+		}
+		if ty, has := o["type"]; has && ty != "Structure" {
+			fmt.Fprintf(&sb, "%X", tg)
+			return nil
+		}
+		kids, ok := o["value"].([]any)
+		if !ok && o["value"] != nil {
+			return fmt.Errorf("structure value is not an array")
+		}
+		fmt.Fprintf(&sb, "(%X", tg)
+		for _, c := range kids {
+			sb.WriteByte(' ')
+			if err := walk(c); err != nil {
+				return err
+			}
+		}
+		sb.WriteByte(')')
+		return nil
+	}
+	if err := walk(root); err != nil {
+		return "", err
+	}
+	return sb.String(), nil
+}
+
+var (
+	xmlMajorRe  = regexp.MustCompile(`(<ProtocolVersionMajor type="Integer" value=")-?[0-9]+(")`)
+	xmlMinorRe  = regexp.MustCompile(`(<ProtocolVersionMinor type="Integer" value=")-?[0-9]+(")`)
+	jsonMajorRe = regexp.MustCompile(`("tag": ?"ProtocolVersionMajor", ?"type": ?"Integer", ?"value": ?)-?[0-9]+`)
+	jsonMinorRe = regexp.MustCompile(`("tag": ?"ProtocolVersionMinor", ?"type": ?"Integer", ?"value": ?)-?[0-9]+`)
+)
+
+func replaceFirst(re *regexp.Regexp, doc []byte, repl string) ([]byte, bool) {
+	loc := re.FindSubmatchIndex(doc)
+	if loc == nil {
+		return doc, false
+	}
+	var out []byte
+	out = append(out, doc[:loc[0]]...)
+	out = re.Expand(out, []byte(repl), doc, loc)
+	out = append(out, doc[loc[1]:]...)
+	return out, true
+}
+
+// patchTextVersion rewrites the header's ProtocolVersion (the first one of the document) to v.
+func patchTextVersion(codec string, doc []byte, v ver) ([]byte, bool) {
+	var ok1, ok2 bool
+	if codec == "xml" {
+		doc, ok1 = replaceFirst(xmlMajorRe, doc, fmt.Sprintf("${1}%d${2}", v.maj))
+		doc, ok2 = replaceFirst(xmlMinorRe, doc, fmt.Sprintf("${1}%d${2}", v.min))
+	} else {
+		doc, ok1 = replaceFirst(jsonMajorRe, doc, fmt.Sprintf("${1}%d", v.maj))
+		doc, ok2 = replaceFirst(jsonMinorRe, doc, fmt.Sprintf("${1}%d", v.min))
+	}
+	return doc, ok1 && ok2
+}
+
 func init() {
 	register(&Engine{
 		Name: "gate",
-		Rule: "request/response messages with EVERY field populated (version-dependent ones included, inside nested structures, attributes and batches) encoded at each protocol version 1.0..1.4 and at 1.4; the tree at version V must equal the 1.4 tree with exactly the elements the pinned KMIP table introduces after V removed; the 1.4 bytes with the header patched to V must decode to the full value; distinct = message x version; nontrivial = message contains at least one version-dependent element",
+		Rule: "request/response messages with EVERY field populated whatever the version (version-dependent ones included, inside nested structures, attributes and batches; the first batch item cycles through every registered operation x direction, attributes cycle through every standard name; 60% everything populated, 40% random subsets) encoded in binary, XML and JSON at each protocol version of {1.0 … 1.4} and of {0.0, 0.9, 1.5, 1.10, 2.0, 2.1, -1.3, 1.-1}; the element tree at version V (binary: the independent parser's tree; XML/JSON: the element skeleton read with encoding/xml / encoding/json) must equal the tree at 1.4 with exactly the elements the pinned KMIP table (Pinned/Introduced.lean, served by the model: single source) introduces after V removed; the 1.4 bytes / documents with the header patched to V must decode to the full value; every pinned row must have removed and kept an element at least `floor` times; distinct = message x version; nontrivial = at least one element removed",
 		Run:  runGate,
 	})
 }
@@ -145,22 +353,52 @@ func headerVersion(x any) *kmip.ProtocolVersion {
 	return nil
 }
 
+// gateVersions: 1.0 … 1.4 (the quantifier of the property) and versions outside (the theorems speak about every pair).
+var gateVersions = []ver{{1, 0}, {1, 1}, {1, 2}, {1, 3}, {1, 4}, {0, 0}, {0, 9}, {1, 5}, {1, 10}, {2, 0}, {2, 1}, {-1, 3}, {1, -1}}
+
+func gateViolate(ctx *Ctx, oracle, key, detail, line string) {
+	ctx.Res.Violate(report.Violation{Property: "C05", Oracle: oracle, Key: "gate:" + key, Detail: detail, Line: line})
+}
+
+func gateKind(want, got string) string {
+	switch {
+	case len(got) > len(want):
+		return "element-introduced-after-V-present"
+	case len(got) < len(want):
+		return "in-range-element-missing"
+	}
+	return "later-element-present-or-in-range-element-missing"
+}
+
 func runGate(ctx *Ctx) {
 	s := getSchema()
 	r := ctx.R
+	pt, err := loadPinned()
+	if err != nil {
+		ctx.Res.Fail("cannot read the pinned introduction table from the model: " + err.Error())
+		return
+	}
+	// the table is part of the evidence: one impl-only case per run documenting what was used
+	ctx.Res.Count(fmt.Sprintf("gate.pinned-rows=%d", len(pt.keys)))
+	st := &gateStats{removed: map[gateKey]int{}, kept: map[gateKey]int{}}
 	reqT := planTarget{s.Roots["RequestMessage"], reflect.TypeFor[*kmip.RequestMessage](), 0}
 	respT := planTarget{s.Roots["ResponseMessage"], reflect.TypeFor[*kmip.ResponseMessage](), 0}
-	n := ctx.N(250, 8000)
+	n := ctx.N(250, 5000)
+	opSeq, attrSeq := 0, 0
 	for i := 0; i < n; i++ {
 		tg := reqT
 		if i%2 == 1 {
 			tg = respT
 		}
 		fill := 2
-		if i%5 == 4 {
-			fill = 1
+		if i%5 >= 3 {
+			fill = 1 // random subsets of the (gated) fields present
 		}
-		p := &popCfg{r: r, s: s, fill: fill, respectGating: false, extTags: true}
+		// directed coverage: the first batch item of message i is operation (i/2) mod #ops, attributes cycle
+		// through the standard names; text is kept XML/JSON-representable so that the same value goes
+		// through the three encodings
+		opSeq = i / 2
+		p := &popCfg{r: r, s: s, fill: fill, respectGating: false, extTags: true, textMode: 2, opSeq: &opSeq, attrSeq: &attrSeq}
 		x := reflect.New(tg.ty.Elem())
 		p.populate(x.Elem())
 		hv := headerVersion(x.Interface())
@@ -173,10 +411,16 @@ func runGate(ctx *Ctx) {
 		if err != nil {
 			continue
 		}
-		fullVal, _ := s.Render(x, s.Dyns[tg.dyn].Kind)
-		for minor := 0; minor <= 4; minor++ {
-			v := ver{1, minor}
-			*hv = kmip.ProtocolVersion{ProtocolVersionMajor: 1, ProtocolVersionMinor: int32(minor)}
+		fullDocs := map[string][]byte{}
+		for _, c := range textCodecs {
+			doc, pn := guard("Marshal", func() []byte { return c.marshal(x.Interface()) })
+			if pn == "" {
+				fullDocs[c.name] = doc
+			}
+		}
+		response := tg.dyn == respT.dyn
+		for vi, v := range gateVersions {
+			*hv = kmip.ProtocolVersion{ProtocolVersionMajor: int32(v.maj), ProtocolVersionMinor: int32(v.min)}
 			val, _ := s.Render(x, s.Dyns[tg.dyn].Kind)
 			line := fmt.Sprintf("plan.enc %d 0 %s", tg.dyn, val)
 			ctx.current = line
@@ -185,11 +429,13 @@ func runGate(ctx *Ctx) {
 			if pn != "" {
 				impl = "panic"
 			}
-			want := filterTree(fullTree, v, tg.dyn == respT.dyn, 0)
+			want := pt.filterTree(fullTree, v, response, st)
 			setVersionItems(want, v)
-			nontrivial := want.Render() != fullTree.Render()
+			wantR := want.Render()
+			nontrivial := wantR != fullTree.Render()
 			ctx.Add(line, impl, nontrivial, "C05,C01")
 			if pn != "" {
+				gateViolate(ctx, "gating", "encoder-panic", "MarshalTTLV panicked at version "+v.String()+": "+pn, line)
 				continue
 			}
 			gotTree, err := tree.Decode(got)
@@ -197,37 +443,107 @@ func runGate(ctx *Ctx) {
 				ctx.Res.Violate(report.Violation{Property: "C03", Oracle: "independent-parse", Key: "gate:not-wellformed", Detail: err.Error(), Line: line})
 				continue
 			}
-			if gotTree.Render() != want.Render() {
-				a, b := want.Render(), gotTree.Render()
-				kind := "later-element-present-or-in-range-element-missing"
-				if len(b) > len(a) {
-					kind = "element-introduced-after-V-present"
-				} else if len(b) < len(a) {
-					kind = "in-range-element-missing"
-				}
-				ctx.Res.Violate(report.Violation{Property: "C05", Oracle: "gating", Key: "gate:" + kind, Detail: fmt.Sprintf("at version 1.%d: %s", minor, firstDiff(a, b)), Line: line})
+			if gotR := gotTree.Render(); gotR != wantR {
+				gateViolate(ctx, "gating", gateKind(wantR, gotR), fmt.Sprintf("binary at version %s: %s", v, firstDiff(wantR, gotR)), line)
 			}
-			ctx.Res.Count(fmt.Sprintf("gate.v1.%d", minor))
+			if vi < 5 {
+				ctx.Res.Count("gate.v" + v.String())
+			} else {
+				ctx.Res.Count("gate.outside-1.0-1.4.v" + v.String())
+			}
 			if nontrivial {
 				ctx.Res.Count("gate.nontrivial")
 			}
-			// decoding is lenient: the full (1.4) element set under a version-V header is accepted and returned
-			patched := append([]byte{}, full...)
-			pt, err := tree.Decode(patched)
+			// ---- the same in XML and JSON: the element skeleton read by an independent reader ----
+			wantSkel := skelOfTree(want)
+			for _, c := range textCodecs {
+				tline := fmt.Sprintf("#gate.text %s %d %s", c.name, tg.dyn, val)
+				doc, pn := guard("Marshal", func() []byte { return c.marshal(x.Interface()) })
+				if pn != "" {
+					gateViolate(ctx, "gating-"+c.name, c.name+":encoder-panic", "encoder panicked at version "+v.String()+": "+pn, tline)
+					continue
+				}
+				var gotSkel string
+				var err error
+				if c.name == "xml" {
+					gotSkel, err = skelOfXML(doc)
+				} else {
+					gotSkel, err = skelOfJSON(doc)
+				}
+				if err != nil {
+					// well-formedness of text documents is C04's business; say so once and go on
+					ctx.Res.Count("gate.text." + c.name + ".unreadable")
+					continue
+				}
+				if gotSkel != wantSkel {
+					gateViolate(ctx, "gating-"+c.name, c.name+":"+gateKind(wantSkel, gotSkel), fmt.Sprintf("%s at version %s: %s", c.name, v, firstDiff(wantSkel, gotSkel)), tline)
+				}
+				ctx.Add(tline, "ok", nontrivial, "")
+				ctx.Res.Count("gate.text." + c.name)
+			}
+			// ---- decoding is lenient: the full (1.4) element set under a version-V header is accepted and returned ----
+			pt14, err := tree.Decode(full)
 			if err == nil {
-				setVersionItems(pt, v)
-				patched = pt.Encode()
+				setVersionItems(pt14, v)
+				patched := pt14.Encode()
 				dline := fmt.Sprintf("plan.dec %d 0 %s", tg.dyn, hexUp(patched))
 				dimpl, _ := unmarshalInto(s, tg, append([]byte{}, patched...))
 				ctx.Add(dline, dimpl, true, "C05,C02")
 				wantVal := "ok " + val // same value, version fields = V
-				_ = fullVal
 				if normContent(dimpl) != normContent(wantVal) {
-					ctx.Res.Violate(report.Violation{Property: "C05", Oracle: "lenient-decode", Key: "gate:later-element-not-returned", Detail: fmt.Sprintf("decoding at 1.%d drops or rejects later-version elements: %s", minor, firstDiff(normContent(wantVal), normContent(dimpl))), Line: dline})
+					gateViolate(ctx, "lenient-decode", "later-element-not-returned", fmt.Sprintf("decoding at %s drops or rejects later-version elements: %s", v, firstDiff(normContent(wantVal), normContent(dimpl))), dline)
 				}
 			}
+			for _, c := range textCodecs {
+				doc14, ok := fullDocs[c.name]
+				if !ok {
+					continue
+				}
+				pdoc, ok := patchTextVersion(c.name, doc14, v)
+				if !ok {
+					ctx.Res.Count("gate.text." + c.name + ".unpatchable")
+					continue
+				}
+				dline := fmt.Sprintf("#gate.textdec %s %d %s", c.name, tg.dyn, hexUp(pdoc))
+				fresh := reflect.New(tg.ty.Elem())
+				derr, pn := guard("Unmarshal", func() error { return c.unmarshal(pdoc, fresh.Interface()) })
+				switch {
+				case pn != "":
+					gateViolate(ctx, "lenient-decode-"+c.name, c.name+":later-element-decode-panic", fmt.Sprintf("decoding the 1.4 element set under a %s header panicked: %s", v, pn), dline)
+				case derr != nil:
+					gateViolate(ctx, "lenient-decode-"+c.name, c.name+":later-element-rejected", fmt.Sprintf("decoding the 1.4 element set under a %s header is rejected: %v", v, derr), dline)
+				default:
+					fv := headerVersion(fresh.Interface())
+					if int(fv.ProtocolVersionMajor) != v.maj || int(fv.ProtocolVersionMinor) != v.min {
+						ctx.Res.Count("gate.text." + c.name + ".patch-missed")
+						break
+					}
+					*fv = kmip.V1_4
+					back, pn := guard("MarshalTTLV", func() []byte { return ttlv.MarshalTTLV(fresh.Interface()) })
+					if pn != "" || !bytes.Equal(back, full) {
+						gv, _ := s.Render(fresh, s.Dyns[tg.dyn].Kind)
+						*hv = kmip.V1_4
+						fv14, _ := s.Render(x, s.Dyns[tg.dyn].Kind)
+						gateViolate(ctx, "lenient-decode-"+c.name, c.name+":later-element-not-returned", fmt.Sprintf("decoding the 1.4 element set under a %s header does not return the full value: %s", v, firstDiff(normContent(fv14), normContent(gv))), dline)
+					}
+				}
+				ctx.Add(dline, "ok", true, "")
+				ctx.Res.Count("gate.textdec." + c.name)
+			}
 		}
-		_ = bytes.Equal
 	}
-	_ = schema.Kind{}
+	// ---- per-row coverage with a floor ----
+	floor := ctx.N(1, 10)
+	var low []string
+	for _, k := range pt.keys {
+		ctx.Res.Distribution["gate.row.removed."+k.String()] += st.removed[k]
+		ctx.Res.Distribution["gate.row.kept."+k.String()] += st.kept[k]
+		if st.removed[k] < floor || st.kept[k] < floor {
+			low = append(low, fmt.Sprintf("%s(removed %d, kept %d)", k, st.removed[k], st.kept[k]))
+		}
+	}
+	sort.Strings(low)
+	if len(low) > 0 {
+		ctx.Res.Fail(fmt.Sprintf("coverage floor %d not reached for pinned rows: %s", floor, strings.Join(low, ", ")))
+	}
 }
